@@ -391,9 +391,6 @@ func compiledMain(e *Env, check string, specs []PkgSpec, race bool, timeout time
 				Replay: map[string]any{"openapi.json": string(ds.Raw), "config.json": cfgString(ds.Cfg)}})
 		}
 	}
-	if un := r.Labels["unmappable-package"]; un*20 > int64(st.Kept) {
-		incon = append(incon, fmt.Sprintf("harness could not map %d of %d packages", un, st.Kept))
-	}
 	if len(incon) > 0 {
 		return r, fmt.Errorf("%s", strings.Join(incon, "\n"))
 	}
